@@ -213,7 +213,16 @@ func (f *frame) call(res ssa.Value, c *ssa.CallCommon, st *State, cur string) (s
 			if f.callLog == nil {
 				f.callLog = map[string][]callRec{}
 			}
-			f.callLog[name] = append(f.callLog[name], callRec{val: f.vals[res], cond: before})
+			rec := callRec{val: f.vals[res], cond: before}
+			if c.IsInvoke() {
+				rec.args = append(rec.args, f.valOf(c.Value))
+				rec.argT = append(rec.argT, c.Value.Type())
+			}
+			for _, a := range c.Args {
+				rec.args = append(rec.args, f.valOf(a))
+				rec.argT = append(rec.argT, a.Type())
+			}
+			f.callLog[name] = append(f.callLog[name], rec)
 		}
 	}
 	return out, err
